@@ -11,7 +11,7 @@ LEVEL_TEXT = ("Static analysis of the type-checked MIR of /repo: for every kind 
               "send wake-up; the receiving state becomes DataRcvd only on the `all received` edge and DataRead only on the "
               "`all read` edge. These are necessary conditions of 'lost data is resent' and 'EOF only after the last byte'; "
               "byte equality, ordering and exactly-once are interval arithmetic and are not decided (see C08/C09).")
-NOT_DECIDED = ["bytes read == bytes written, in order, exactly once (interval arithmetic of RecvBuf / BufMap: C08, C09 not applicable)",
+NOT_DECIDED = ["bytes read == bytes written, in order, exactly once (interval arithmetic of RecvBuf / BufMap; C08 / C09 decide only its structural clauses)",
                "eventual delivery and completion of flush/shutdown (liveness)", "FIN retransmission state machine (fin_state) of DataSentSender"]
 
 G = "qconnection::GuaranteedFrame"
